@@ -161,6 +161,63 @@ pub fn run(ctx: &Ctx) -> Report {
                     );
                 }
             }
+            // malformed arguments: the property quantifies over EVERY input, and an on-chain argument is
+            // arbitrary Data — near misses of the conforming arguments (constructor tag moved, a field
+            // added / dropped, Int <-> Bytes, wrapped in a list) must be accepted or rejected alike
+            // under all nine settings
+            // (only in modules whose labels are total: elsewhere a failing label decides, by design)
+            for (ai, args) in argsets.iter().take(if p.labels_total { 3 } else { 0 }).enumerate() {
+                let data = c01::value_args(&p.module, fi, args);
+                for mi in 0..3u64 {
+                    let mut bad = data.clone();
+                    if bad.is_empty() {
+                        continue;
+                    }
+                    let which = r.below(bad.len());
+                    bad[which] = mutate_pd(&mut r, &bad[which], 0);
+                    if bad[which] == data[which] {
+                        continue;
+                    }
+                    let outs: Vec<Out> = progs.iter().map(|c| comp::eval(&c.post, &bad)).collect();
+                    rep.evaluations += 9;
+                    let canon: Vec<String> = outs.iter().map(|o| o.canonical()).collect();
+                    if canon.iter().any(|c| c == "budget") {
+                        rep.count("malformed:inconclusive-budget");
+                        continue;
+                    }
+                    if canon.iter().all(|c| *c == canon[0]) {
+                        rep.count(if canon[0] == "abort" { "malformed:same-under-9:abort" } else { "malformed:same-under-9:value" });
+                        rep.nontrivial.insert(format!("{}:malformed#{}.{}|{}", base, ai, mi, canon[0].chars().take(40).collect::<String>()));
+                        continue;
+                    }
+                    let table: Vec<String> = settings.iter().zip(canon.iter()).map(|((n, _), c)| format!("{}={}", n, c.chars().take(40).collect::<String>())).collect();
+                    let argw: Vec<String> = bad.iter().map(|d| format!("{:?}", d).chars().take(300).collect()).collect();
+                    let pre_outs: Vec<Out> = progs.iter().map(|c| comp::eval(&c.pre, &bad)).collect();
+                    let pre_canon: Vec<String> = pre_outs.iter().map(|o| o.canonical()).collect();
+                    rep.evaluations += 9;
+                    let pre_same = pre_canon.iter().all(|c| *c == pre_canon[0]);
+                    if pre_same {
+                        let k = (0..9).find(|k| canon[*k] != pre_canon[*k]).unwrap_or(0);
+                        if comp::cast_check_removed(&pre_outs[k], &outs[k]) {
+                            rep.count("known:optimiser-cancels-data-cast-check");
+                            comp::fail_shared(
+                                &mut rep,
+                                &format!("c14:{}", comp::CAST_KEY_SUFFIX),
+                                "under some settings the optimiser cancels <x>Data(un<X>Data d), removing the shape check of an `expect` (the traced check of the verbose builds is not cancelled); unoptimised programs agree under all 9 settings",
+                                json!({"source": p.src, "function": f.name, "arguments": argw}),
+                                json!({"outcomes": table, "deviating_setting": settings[k].0}),
+                            );
+                            continue;
+                        }
+                    }
+                    rep.fail(
+                        &format!("{}:malformed#{}.{}:tracing-changes-outcome", base, ai, mi),
+                        "the outcome on a malformed argument depends on the tracing setting",
+                        json!({"source": p.src, "function": f.name, "arguments": argw}),
+                        json!({"outcomes": table, "unoptimised_agree": pre_same}),
+                    );
+                }
+            }
             // the source semantics under the three modes, for the model comparison
             if i % 4 == 0 || !p.labels_total {
                 let calls: Vec<(usize, Vec<crate::mini::V>)> = argsets.iter().map(|a| (fi, a.clone())).collect();
@@ -176,6 +233,7 @@ pub fn run(ctx: &Ctx) -> Report {
         reqs.extend(q);
     }
     rep.count(&format!("generated-modules-{}", n_modules));
+    expect_matrix(&mut rep, ctx.thorough);
     // the model agrees with the real builds mode by mode (including the cases of the known finding)
     let requests: Vec<String> = reqs.iter().map(|r| r.1.clone()).collect();
     let replies = driver::run(&requests);
@@ -199,4 +257,179 @@ pub fn run(ctx: &Ctx) -> Report {
         }
     }
     rep
+}
+
+
+/// `expect` from Data under all nine settings: for every type of the C06 universe that can be cast
+/// from Data, `pub fn f(d: Data) -> Int { expect x: T = d  <use x> }` is compiled under the 3 levels x 3
+/// scopes and run on the Data of well-formed values of T AND on near misses of them (constructor tag
+/// moved, field added / dropped, Int <-> Bytes, wrapped): what a build accepts must not depend on the
+/// tracing setting (a validator built silent decides like the one checked verbose)
+fn expect_matrix(rep: &mut Report, thorough: bool) {
+    use crate::c06_matrix::{universe, PRELUDE};
+    use uplc::ast::Constant;
+    let settings = comp::settings();
+    let u: Vec<_> = universe().into_iter().filter(|t| !t.short.contains("wrap") && !t.short.contains("string") && t.short != "data").collect();
+    rep.count_n("expect-matrix:types", u.len() as u64);
+    let results = comp::par_map(u.len() as u64, 14, |ti| {
+        let t = &u[ti as usize];
+        let mut rep = Report::new("c14", "");
+        let mut r = crate::prng::Prng::new(0x1414_0000 ^ ti);
+        let mks: String = t.mk.iter().enumerate().map(|(k, e)| format!("pub fn mk{k}() -> Data {{\n  let v: {} = {e}\n  let d: Data = v\n  d\n}}\n\n", t.ty)).collect();
+        let src = format!("{PRELUDE}{mks}pub fn f(d: Data) -> Int {{\n  expect x: {} = d\n  {}\n}}\n", t.ty, (t.obs)(t, "x"));
+        let mut progs = vec![];
+        for (sname, tracing) in settings.iter() {
+            let ch = match comp::check(&src, *tracing) {
+                Ok(c) => c,
+                Err(e) => {
+                    rep.count(if e.starts_with("panic") { "expect-matrix:checker-panic" } else { "expect-matrix:rejected" });
+                    if rep.notes.len() < 2 {
+                        rep.notes.push(format!("expect-matrix {} not accepted: {}", t.short, e.chars().take(160).collect::<String>()));
+                    }
+                    return rep;
+                }
+            };
+            match comp::compile(&ch, "f", *tracing) {
+                Ok(c) => progs.push((c, ch)),
+                Err(msg) => {
+                    rep.fail(&format!("expect-matrix/{}:{}:compile-panic", t.short, sname), "the compiler crashed under one tracing setting", json!({"source": src, "function": "f", "tracing": sname}), json!({"panic": msg}));
+                    return rep;
+                }
+            }
+        }
+        rep.count("expect-matrix:compiled-under-9-settings");
+        // well-formed Data of the type, from the real pipeline
+        let mut seeds: Vec<pallas_primitives::alonzo::PlutusData> = vec![];
+        for k in 0..t.mk.len() {
+            if let Ok(c) = comp::compile(&progs[0].1, &format!("mk{k}"), settings[0].1) {
+                if let Out::Const(Constant::Data(d)) = comp::eval(&c.post, &[]) {
+                    seeds.push(d);
+                }
+            }
+        }
+        let mut inputs: Vec<(String, pallas_primitives::alonzo::PlutusData)> = vec![];
+        for (k, d) in seeds.iter().enumerate() {
+            inputs.push((format!("wellformed#{k}"), d.clone()));
+            for m in 0..(if thorough { 40 } else { 12 }) {
+                let bad = mutate_pd(&mut r, d, 0);
+                if &bad != d {
+                    inputs.push((format!("nearmiss#{k}.{m}"), bad));
+                }
+            }
+        }
+        for (label, d) in inputs {
+            let args = vec![d.clone()];
+            let outs: Vec<Out> = progs.iter().map(|(c, _)| comp::eval(&c.post, &args)).collect();
+            rep.evaluations += 9;
+            let canon: Vec<String> = outs.iter().map(|o| o.canonical()).collect();
+            if canon.iter().any(|c| c == "budget") {
+                continue;
+            }
+            let key = format!("expect-matrix/{}:{}", t.short, label);
+            if canon.iter().all(|c| *c == canon[0]) {
+                rep.count(if canon[0] == "abort" { "expect-matrix:same-under-9:abort" } else { "expect-matrix:same-under-9:value" });
+                rep.nontrivial.insert(format!("{}|{}", key, canon[0].chars().take(30).collect::<String>()));
+                continue;
+            }
+            let table: Vec<String> = settings.iter().zip(canon.iter()).map(|((n, _), c)| format!("{}={}", n, c.chars().take(40).collect::<String>())).collect();
+            let pre_outs: Vec<Out> = progs.iter().map(|(c, _)| comp::eval(&c.pre, &args)).collect();
+            let pre_canon: Vec<String> = pre_outs.iter().map(|o| o.canonical()).collect();
+            let pre_same = pre_canon.iter().all(|c| *c == pre_canon[0]);
+            let input = json!({"source": src, "function": "f", "arguments": [format!("{:?}", d).chars().take(400).collect::<String>()]});
+            if pre_same {
+                let k = (0..9).find(|k| canon[*k] != pre_canon[*k]).unwrap_or(0);
+                if comp::cast_check_removed(&pre_outs[k], &outs[k]) {
+                    rep.count("known:optimiser-cancels-data-cast-check");
+                    comp::fail_shared(
+                        &mut rep,
+                        &format!("c14:{}", comp::CAST_KEY_SUFFIX),
+                        "under some settings the optimiser cancels <x>Data(un<X>Data d), removing the shape check of an `expect` (the traced check of the verbose builds is not cancelled); unoptimised programs agree under all 9 settings",
+                        input,
+                        json!({"outcomes": table, "deviating_setting": settings[k].0}),
+                    );
+                    continue;
+                }
+            }
+            // one witness per type
+            let prefix = format!("expect-matrix/{}:", t.short);
+            if rep.property_failures.iter().any(|f| f["key"].as_str().map(|s| s.starts_with(&prefix)).unwrap_or(false)) {
+                rep.count("expect-matrix:more-witnesses-not-listed");
+                continue;
+            }
+            rep.fail(&format!("{}:tracing-changes-outcome", key), "what an `expect` from Data accepts depends on the tracing setting", input, json!({"outcomes": table, "unoptimised_agree": pre_same}));
+        }
+        rep
+    });
+    for r in results {
+        comp::merge(rep, r);
+    }
+}
+
+/// a near miss of a Data value: one node changed
+pub fn mutate_pd(r: &mut crate::prng::Prng, d: &pallas_primitives::alonzo::PlutusData, depth: u32) -> pallas_primitives::alonzo::PlutusData {
+    use pallas_primitives::alonzo::{BigInt as PBigInt, Constr, PlutusData as PD};
+    use pallas_primitives::conway::MaybeIndefArray;
+    let leaf_int = |n: i64| PD::BigInt(PBigInt::Int(n.into()));
+    // descend into a child with probability 1/2 when there is one
+    match d {
+        PD::Constr(c) if !c.fields.is_empty() && depth < 4 && r.chance(1, 2) => {
+            let mut fields: Vec<PD> = c.fields.clone().to_vec();
+            let i = r.below(fields.len());
+            fields[i] = mutate_pd(r, &fields[i], depth + 1);
+            PD::Constr(Constr { tag: c.tag, any_constructor: c.any_constructor, fields: MaybeIndefArray::Indef(fields) })
+        }
+        PD::Array(xs) if !xs.is_empty() && depth < 4 && r.chance(1, 2) => {
+            let mut v: Vec<PD> = xs.clone().to_vec();
+            let i = r.below(v.len());
+            v[i] = mutate_pd(r, &v[i], depth + 1);
+            PD::Array(MaybeIndefArray::Indef(v))
+        }
+        PD::Constr(c) => {
+            let fields: Vec<PD> = c.fields.clone().to_vec();
+            let ix: u64 = match c.tag {
+                121..=127 => c.tag - 121,
+                1280..=1400 => c.tag - 1280 + 7,
+                _ => c.any_constructor.unwrap_or(0),
+            };
+            match r.below(5) {
+                0 => uplc::ast::Data::constr(ix + 1, fields),
+                1 => uplc::ast::Data::constr(ix + 2, fields),
+                2 => uplc::ast::Data::constr(if ix == 0 { 7 } else { 0 }, fields),
+                3 => {
+                    let mut f = fields.clone();
+                    f.push(leaf_int(42));
+                    uplc::ast::Data::constr(ix, f)
+                }
+                _ => {
+                    let mut f = fields.clone();
+                    if f.is_empty() {
+                        PD::Array(MaybeIndefArray::Def(vec![]))
+                    } else {
+                        f.pop();
+                        uplc::ast::Data::constr(ix, f)
+                    }
+                }
+            }
+        }
+        PD::BigInt(_) => match r.below(3) {
+            0 => PD::BoundedBytes(vec![1u8].into()),
+            1 => uplc::ast::Data::constr(0, vec![]),
+            _ => PD::Array(MaybeIndefArray::Indef(vec![d.clone()])),
+        },
+        PD::BoundedBytes(_) => match r.below(3) {
+            0 => leaf_int(7),
+            1 => uplc::ast::Data::constr(1, vec![]),
+            _ => PD::Array(MaybeIndefArray::Indef(vec![d.clone()])),
+        },
+        PD::Array(xs) => match r.below(3) {
+            0 => leaf_int(0),
+            1 => {
+                let mut v: Vec<PD> = xs.clone().to_vec();
+                v.push(uplc::ast::Data::constr(9, vec![]));
+                PD::Array(MaybeIndefArray::Indef(v))
+            }
+            _ => uplc::ast::Data::constr(0, xs.clone().to_vec()),
+        },
+        PD::Map(_) => leaf_int(1),
+    }
 }
